@@ -165,6 +165,40 @@ def _caller_checks_ascii(P, b):
 ADVANCE_SUFFIX = ("Iterator>::next", "Iterator::next", "Iterator>::nth", "Iterator::nth")
 
 
+_ALWAYS_ADV = {}
+
+
+def always_advances(u, npath, depth=0):
+    """every path of the workspace function from entry to a normal return passes a call that advances a finite
+    iterator (directly or through another such function)"""
+    if npath in _ALWAYS_ADV:
+        return _ALWAYS_ADV[npath]
+    _ALWAYS_ADV[npath] = False
+    b = next((x for x in u.bodies if x.npath == npath and x.kind in ("Fn", "AssocFn")), None)
+    if b is None or depth > 2:
+        return False
+    mir = b.mir
+    adv = set()
+    rets = set()
+    for bi in mir.live_blocks():
+        t = mir.blocks[bi]["term"]
+        if t["k"] == "return":
+            rets.add(bi)
+        if t["k"] != "call":
+            continue
+        rn = facts.strip_generics(t["callee"].get("resolved") or t["callee"].get("path", ""))
+        pn = facts.strip_generics(t["callee"].get("path", ""))
+        if rn.endswith(ADVANCE_SUFFIX) or pn.endswith(ADVANCE_SUFFIX):
+            adv.add(bi)
+        else:
+            q = u.qualify(rn, t["callee"].get("resolved_krate") or t["callee"].get("krate"))
+            if q != npath and always_advances(u, q, depth + 1):
+                adv.add(bi)
+    ok = bool(adv) and bool(rets) and cfg.must_pass_through(mir, 0, adv, rets)
+    _ALWAYS_ADV[npath] = ok
+    return ok
+
+
 def check_loops(R, P, u):
     n_loops = 0
     for b in u.bodies:
@@ -194,6 +228,9 @@ def check_loops(R, P, u):
                     adv.add(bi)
                 elif any(x in pn for x in ("util::skip_ws", "util::skip_digits", "util::skip_sign")):
                     continue
+                elif always_advances(u, u.qualify(rn, t["callee"].get("resolved_krate") or t["callee"].get("krate"))):
+                    # a helper that consumes an element on every path (e.g. the post-unit check split out of the loop)
+                    adv.add(bi)
             # every cycle through the header passes an advancing call
             succ_in = [s for s in mir.succs(h) if s in body]
             inner = cfg.reachable(mir, succ_in, avoid=adv | (set(mir.live_blocks()) - body))
